@@ -1,9 +1,10 @@
 (** MoveSteps.v — LocalFileSystem.Move (fs_local.go) OS call by OS call, after its
     read-only checks ([DavServer.copy_move_checks]): [os.RemoveAll(dstPath)] when the
-    destination exists, then [os.Rename(srcPath, dstPath)].  [DavServer.do_move] takes the
-    two as one step; MoveStepsProofs.v shows that the sequence computes it, and what the
-    tree is when the rename is refused by the OS (EPERM / EACCES on the source's directory,
-    EXDEV, EBUSY) after the destination has been removed.  No proofs here. *)
+    destination exists it is set aside under a temporary name, then
+    [os.Rename(srcPath, dstPath)], then the old destination is removed (or renamed back).
+    [DavServer.do_move] takes all that as one step; MoveStepsProofs.v shows that the sequence
+    computes it, and that the tree is the one before when the rename is refused by the OS
+    (EPERM / EACCES on the source's directory, EXDEV, EBUSY).  No proofs here. *)
 From GW Require Import Base GoPath Fs DavServer.
 Local Open Scope list_scope.
 
@@ -18,10 +19,40 @@ Definition rename_step (s : option node) (sp dp : path) : option (option node) :
     end
   end.
 
-(** [rename_fails]: the OS refuses the rename.  Returns the state when Move returns and
-    whether it succeeded. *)
-Definition move_steps (s : option node) (sp dp : path) (rename_fails : bool) : option node * bool :=
-  let s1 := if exists_ (geto s dp) then remo s dp else s in     (* os.RemoveAll(dstPath) *)
+(** the roll-back / failure tail: os.Rename(tmp, dst) puts the old destination back *)
+Definition move_back (s1 : option node) (tmpp dp : path) : option node * bool :=
+  match rename_step s1 tmpp dp with
+  | Some s2 => (s2, false)
+  | None => (s1, false)
+  end.
+
+(** Since the repair of finding move-rename-fault: a new destination is one rename; an
+    existing one is first set aside under a new temporary name [tmpp] next to it
+    (createTemp + Remove reserve the name), removed once the source has taken its place
+    (os.RemoveAll(tmp)), and renamed back when the OS refuses the rename of the source.
+    [rename_fails]: the OS refuses os.Rename(src, dst).  Returns the state when Move
+    returns and whether it succeeded. *)
+Definition move_steps (s : option node) (sp dp tmpp : path) (rename_fails : bool) : option node * bool :=
+  if exists_ (geto s dp) then
+    match rename_step s dp tmpp with                       (* os.Rename(dst, tmp) *)
+    | None => (s, false)
+    | Some s1 =>
+      if rename_fails then move_back s1 tmpp dp
+      else match rename_step s1 sp dp with                 (* os.Rename(src, dst) *)
+           | Some s2 => (remo s2 tmpp, true)               (* os.RemoveAll(tmp) *)
+           | None => move_back s1 tmpp dp
+           end
+    end
+  else
+    if rename_fails then (s, false)
+    else match rename_step s sp dp with
+         | Some s2 => (s2, true)
+         | None => (s, false)
+         end.
+
+(** The sequence before the repair: os.RemoveAll(dst), then os.Rename(src, dst). *)
+Definition move_steps_old (s : option node) (sp dp : path) (rename_fails : bool) : option node * bool :=
+  let s1 := if exists_ (geto s dp) then remo s dp else s in
   if rename_fails then (s1, false)
   else match rename_step s1 sp dp with
        | Some s2 => (s2, true)
@@ -30,8 +61,8 @@ Definition move_steps (s : option node) (sp dp : path) (rename_fails : bool) : o
 
 (** What the harness observes in the rfault stage: the tree after a MOVE whose rename the
     OS refused is the tree [move_steps] gives. *)
-Definition move_fault_agrees (s : option node) (sp dp : path) (after : option node) : bool :=
-  onode_eqb (fst (move_steps s sp dp true)) after.
+Definition move_fault_agrees (s : option node) (sp dp tmpp : path) (after : option node) : bool :=
+  onode_eqb (fst (move_steps s sp dp tmpp true)) after.
 
-(** The narrow selector of the known finding: an existing destination, a refused rename. *)
+(** The cases the repaired defect was about: an existing destination, a refused rename. *)
 Definition move_fault_loses (s : option node) (dp : path) : bool := exists_ (geto s dp).
